@@ -82,6 +82,14 @@ def assemble_crate(cfg_features, force_external=()):
     def apply(relpath, fc):
         fc.canaries = []
         fc.force_external = set(force_external)
+        # `const X: &str = ..` / `static X: &[u8] = ..`: inside verus!{} the elided lifetime of a const/static item is not accepted;
+        # it is 'static by the language rule (RFC 1623), so writing it out changes nothing (recorded like every other edit)
+        for m in re.finditer(r'\b(?:const|static)\s+[A-Za-z_]\w*\s*:\s*&(?!\s*\')', fc.text):
+            if fc.mask[m.start()]:
+                try:
+                    fc.ed.insert(m.end(), "'static ", 'verus-syntax', 'elided lifetime of a const/static item written out')
+                except LostAnchor:
+                    pass
         registry.apply(relpath, fc, cfg_features)
         # functions without a contract entry whose body is outside Verus's subset
         for q in force_external:
